@@ -113,6 +113,24 @@ pub fn menu(quick: bool) -> Vec<(String, LmSpec)> {
             out.push((format!("knapsack-n{n}-plus-int({lo},{hi})"), LmSpec { vars, rows: vec![row(&wc, Rel::Le, (tot / 2.0).floor(), "cap")], obj: vc, offset: 0.0, sense: Sense::Max }));
         }
     }
+    // near ties at a large objective scale: values proportional to the weights plus a small bonus, so that many
+    // packings lie within 1e-4 (relative) of the optimum; only a search run with gap 0 is entitled to the label Optimal
+    {
+        let wt = [12.0, 7.0, 11.0, 8.0, 9.0, 6.0];
+        for (scale, caps) in [(10000.0, vec![20.0, 26.0, 30.0]), (1e6, vec![26.0])] {
+            for cap in caps {
+                for n in [5usize, 6] {
+                    if quick && (n == 5 || cap == 20.0) {
+                        continue;
+                    }
+                    let vals: Vec<f64> = (0..n).map(|i| scale * wt[i] + (5 - i) as f64).collect();
+                    out.push((format!("near-tie-knapsack-n{n}-cap{cap}-scale{scale}"), LmSpec { vars: bools(n), rows: vec![row(&wt[..n], Rel::Le, cap, "cap")], obj: vals.clone(), offset: 0.0, sense: Sense::Max }));
+                    // the covering twin: cheapest selection reaching the capacity
+                    out.push((format!("near-tie-covering-n{n}-need{cap}-scale{scale}"), LmSpec { vars: bools(n), rows: vec![row(&wt[..n], Rel::Ge, cap, "need")], obj: vals, offset: 0.0, sense: Sense::Min }));
+                }
+            }
+        }
+    }
     // unbounded through a continuous variable
     out.push((
         "unbounded-mixed".into(),
@@ -369,7 +387,7 @@ pub fn run(mut run: Run) -> ! {
     run.isolate = true;
     run.case_timeout_s = 60.0;
     let m = menu(run.quick());
-    run.rule = "for every MILP/LP model of the menu (knapsack, covering, mixed-integer, general-integer, infeasible, unbounded, pure LP, 60 (thorough: 600) mixed-integer models compiled from the C02 objective family; plus every knapsack (max, <=) and covering (min, >=) problem over weight/value menus of 3 values: all 2 x 729 three-item ones in the quick tier, all 2 x 6561 four-item ones in the thorough tier) the number N of clock reads of the uninterrupted search is measured under the virtual clock, then the search is run for EVERY expiry point k = 0..N+1 (time_limit = k ns) x 11 mip_gap values x 2 entry points (solve_milp_lp_problem_with; the builder solver object Microlp::new().with_mip_gap().with_time_limit() in both call orders), plus the builder object with a gap and no time limit; evaluations = models, coverage.expiry_points = executions; non-trivial = model with a finite optimum".into();
+    run.rule = "for every MILP/LP model of the menu (knapsack, covering, near-tie knapsacks and coverings at objective scale 1e4 and 1e6 where many selections lie within 1e-4 of the optimum, mixed-integer, general-integer, infeasible, unbounded, pure LP, 60 (thorough: 600) mixed-integer models compiled from the C02 objective family; plus every knapsack (max, <=) and covering (min, >=) problem over weight/value menus of 3 values: all 2 x 729 three-item ones in the quick tier, all 2 x 6561 four-item ones in the thorough tier) the number N of clock reads of the uninterrupted search is measured under the virtual clock, then the search is run for EVERY expiry point k = 0..N+1 (time_limit = k ns) x 11 mip_gap values x 2 entry points (solve_milp_lp_problem_with; the builder solver object Microlp::new().with_mip_gap().with_time_limit() in both call orders), plus the builder object with a gap and no time limit; evaluations = models, coverage.expiry_points = executions; non-trivial = model with a finite optimum".into();
     run.assume("virtual clock replaces crate web-time (the only clock microlp reads): each read advances time by 1 ns, so real executions are a subset of the enumerated expiry points (a real deadline also fires at some clock read and stays fired)");
     run.assume("exact MILP optimum by integer box enumeration + exact LP; feasibility certificate at 1e-6; Optimal label must be within gap*max(|value|,1e-10) (+1e-6 relative) of the optimum");
     let m2 = m.clone();
